@@ -139,9 +139,49 @@ func Equal(a []int, s Set) bool {
 }
 
 // SelfCheck compares the map model with bit-mask arithmetic on all pairs of
-// subsets of a 6-element universe.
+// subsets of two 6-element universes (small values; the limits of int and their neighbours).
 func SelfCheck() error {
-	univ := []int{-2, -1, 0, 1, 2, 3}
+	const maxInt = int(^uint(0) >> 1)
+	const minInt = -maxInt - 1
+	// a small universe, and one made of the limits of int: the model orders by comparison only (sort.Ints, ==, <),
+	// it never subtracts two elements, so that it is right where differences and sums of elements overflow
+	for _, univ := range [][]int{{-2, -1, 0, 1, 2, 3}, {minInt, minInt + 1, -1, 1, maxInt - 1, maxInt}} {
+		if err := selfCheckOn(univ); err != nil {
+			return err
+		}
+	}
+	if got := fmt.Sprint(Minus(Interval(5), Of(3, minInt, 1, maxInt)).Sorted()); got != "[0 2 4]" {
+		return fmt.Errorf("{0..4} minus {MinInt,1,3,MaxInt} = %s", got)
+	}
+	if got := Of(maxInt, 0, minInt, -1, maxInt).Sorted(); len(got) != 4 || got[0] != minInt || got[1] != -1 || got[2] != 0 || got[3] != maxInt {
+		return fmt.Errorf("Sorted({MaxInt,0,MinInt,-1}) = %v", got)
+	}
+	if !StrictlyIncreasing([]int{minInt, -1, maxInt}) || StrictlyIncreasing([]int{maxInt, minInt}) || StrictlyIncreasing([]int{0, minInt}) || StrictlyIncreasing([]int{maxInt, maxInt}) {
+		return fmt.Errorf("StrictlyIncreasing is wrong at the limits of int")
+	}
+	if !Equal([]int{minInt, 0, maxInt}, Of(0, maxInt, minInt)) || Equal([]int{0, minInt, maxInt}, Of(0, maxInt, minInt)) || Equal([]int{minInt + 1, 0, maxInt}, Of(0, maxInt, minInt)) {
+		return fmt.Errorf("Equal is wrong at the limits of int")
+	}
+	if got := fmt.Sprint(Progression(10, 0, -3).Sorted()); got != "[1 4 7 10]" {
+		return fmt.Errorf("Progression(10,0,-3) = %s", got)
+	}
+	if got := fmt.Sprint(Progression(0, 10, 3).Sorted()); got != "[0 3 6 9]" {
+		return fmt.Errorf("Progression(0,10,3) = %s", got)
+	}
+	if got := fmt.Sprint(Progression(5, 10, maxInt).Sorted()); got != "[5]" {
+		return fmt.Errorf("Progression(5,10,MaxInt) = %s", got)
+	}
+	if got := len(Progression(-maxInt-1, maxInt, 1<<62)); got != 4 {
+		return fmt.Errorf("Progression(MinInt,MaxInt,2^62) has %d elements", got)
+	}
+	if got := fmt.Sprint(Progression(2, 3, 5).Sorted()); got != "[2]" {
+		return fmt.Errorf("Progression(2,3,5) = %s", got)
+	}
+	return nil
+}
+
+// selfCheckOn compares the map model with bit-mask arithmetic on all pairs of subsets of univ (increasing, at most 6 elements).
+func selfCheckOn(univ []int) error {
 	of := func(mask int) Set {
 		s := Set{}
 		for i, v := range univ {
@@ -173,22 +213,6 @@ func SelfCheck() error {
 		if s := of(a).Sorted(); !StrictlyIncreasing(s) || !Equal(s, of(a)) {
 			return fmt.Errorf("Sorted(%v) not increasing", s)
 		}
-	}
-	if got := fmt.Sprint(Progression(10, 0, -3).Sorted()); got != "[1 4 7 10]" {
-		return fmt.Errorf("Progression(10,0,-3) = %s", got)
-	}
-	if got := fmt.Sprint(Progression(0, 10, 3).Sorted()); got != "[0 3 6 9]" {
-		return fmt.Errorf("Progression(0,10,3) = %s", got)
-	}
-	const maxInt = int(^uint(0) >> 1)
-	if got := fmt.Sprint(Progression(5, 10, maxInt).Sorted()); got != "[5]" {
-		return fmt.Errorf("Progression(5,10,MaxInt) = %s", got)
-	}
-	if got := len(Progression(-maxInt-1, maxInt, 1<<62)); got != 4 {
-		return fmt.Errorf("Progression(MinInt,MaxInt,2^62) has %d elements", got)
-	}
-	if got := fmt.Sprint(Progression(2, 3, 5).Sorted()); got != "[2]" {
-		return fmt.Errorf("Progression(2,3,5) = %s", got)
 	}
 	return nil
 }
